@@ -159,7 +159,7 @@ def run(ctx: Context) -> None:
     nwin = nexit = 0
     for label, f, pre in ents:
         # recovery loops need two iterations to show 'the 2nd fails after the 1st succeeded'
-        eng.loop_k = 2 if label.startswith(("core-task", "stop", "submit")) else k
+        eng.loop_k = 2 if label.startswith(("core-task", "stop", "submit", "loop")) else k
         if label.startswith("worker"):
             # the worker's outer loop repeats one poll-and-run cycle: a second unrolling multiplies the
             # paths without adding effect pairs (stated bound; the poll itself is unrolled in loop:*)
@@ -193,6 +193,18 @@ def run(ctx: Context) -> None:
     ctx.add("R4", "recovery-scans::PENDING+RUNNING", scanned == {"PENDING", "RUNNING"}, base.module.relpath, "" if scanned == {"PENDING", "RUNNING"} else f"scanned source statuses: {sorted(scanned)}")
     for st in sorted(all_left - scanned):
         ctx.fail("R4", f"left-behind-status-not-scanned::{st}", base.module.relpath, f"an operation can end with an invocation in {st} (not final, not available) and no recovery scan selects {st}")
+    # R5: the orphan test of the RUNNING scan ("owner has no recent heartbeat") only works if a dead
+    # worker's id is never heart-beaten again (shared with C04/R5)
+    from . import c04
+
+    ctx.rule("R5", "the recovery scan can see a crashed worker: a spawned worker never inherits the runner id of an earlier worker (C04/R5)")
+    sub = Context("C04", ctx.repo, ctx.tier, ctx.seed)
+    sub._resolver = ctx._resolver
+    c04.r5(sub)
+    for i in sub.instances:
+        if i.rule == "R5":
+            ctx.add("R5", i.key.split("/", 2)[2], i.ok, i.where, i.detail)
+    ctx.floor("R5", "child runner id registrations", ctx.count("R5"), 3)
     ctx.exhaustive = False
     ctx.not_decided += [
         "liveness ('reaches a final status as long as some runner stays alive'): needs fairness",
